@@ -59,6 +59,8 @@ impl<T> EventSource for Park<'_, T> {
         // register the coroutine
         let wait_co = &self.queue.wait_co;
         wait_co.store(Blocker::new_coroutine(co));
+        #[cfg(may_verif)]
+        may_queue::verif::point(may_queue::verif::site::CH_SPSC_SUB_STORED, 0);
         // re-check the state, only clear once after resume
         if !self.queue.queue.is_empty() {
             if let Some(co) = wait_co.take() {
@@ -152,6 +154,8 @@ impl<T> InnerQueue<T> {
             return Err(t);
         }
         self.queue.push(t);
+        #[cfg(may_verif)]
+        may_queue::verif::point(may_queue::verif::site::CH_SPSC_SEND_PUSHED, self as *const _ as usize);
         if let Some(co) = self.wait_co.take() {
             co.unpark();
         }
@@ -162,11 +166,15 @@ impl<T> InnerQueue<T> {
         match self.try_recv() {
             Err(TryRecvError::Empty) => {
                 if is_coroutine() {
+                    #[cfg(may_verif)]
+                    may_queue::verif::point(may_queue::verif::site::CH_SPSC_RECV_EMPTY, 0);
                     let park = Park::new(self);
                     yield_with(&park);
                 } else {
                     let blocker = Blocker::new_thread(std::thread::current());
                     self.wait_co.store(blocker);
+                    #[cfg(may_verif)]
+                    may_queue::verif::point(may_queue::verif::site::CH_SPSC_TRECV_STORED, 0);
                     match self.try_recv() {
                         Err(TryRecvError::Empty) => {
                             // no data, wait for it
@@ -203,6 +211,8 @@ impl<T> InnerQueue<T> {
 
     fn drop_chan(&self) {
         self.channels.store(0, Ordering::Relaxed);
+        #[cfg(may_verif)]
+        may_queue::verif::point(may_queue::verif::site::CH_SPSC_DROPCHAN_ZEROED, self as *const _ as usize);
         if let Some(co) = self.wait_co.take() {
             co.unpark();
         }
